@@ -117,6 +117,11 @@ def path_data_violations(d, ndigits):
         if abs(round(x, ndigits) - x) > 1e-12 * max(1.0, abs(x)):
             v.append(f"number {n} is not rounded to {ndigits} digits")
             break
+        # ... and is WRITTEN with no more than that many decimals (a positional literal that spells out the binary expansion of a
+        # rounded value has the right value and dozens of digits)
+        if "e" not in n.lower() and "." in n and len(n.split(".", 1)[1].rstrip("0")) > max(ndigits, 0):
+            v.append(f"number {n[:40]} is written with more than {ndigits} decimals")
+            break
     return v
 
 
